@@ -468,6 +468,14 @@ theorem neg_witness_not_psd {M : DMat n n ℚ} {v : Fin n → ℚ} (h : negWitne
   rw [star_trivial] at h2
   exact absurd h1 (not_lt.mpr h2)
 
+/-- any vector with `vᵀ M v < 0` (e.g. a rationalised float eigenvector, checked by the driver's `quad`) refutes PSD. -/
+theorem quad_neg_not_psd {M : DMat n n ℚ} {v : Fin n → ℚ} (h : quadForm M v < 0) :
+    ¬ M.toMatrix.PosSemidef := by
+  intro hp
+  have h2 := hp.dotProduct_mulVec_nonneg v
+  rw [star_trivial] at h2
+  exact absurd h (not_lt.mpr h2)
+
 /-- certificate and witness exclude each other (the driver can never answer both). -/
 theorem cert_witness_exclusive {M L : DMat n n ℚ} {d : Fin n → ℚ} {v : Fin n → ℚ}
     (hc : psdCert? M = some (L, d)) (hw : negWitness? M = some v) : False :=
